@@ -9,6 +9,8 @@ From PF Require Export Trees.Octree.
 From Coq Require Import Permutation Sorting.Sorted Lqa Lia Qfield.
 Open Scope Z_scope.
 
+Definition zero_pt_box : box := ((0, 0, 0), (0, 0, 0)).
+
 (* ---------- induction over trees (children are a list) ---------- *)
 Lemma tree_ind' (P : tree -> Prop) :
   (forall b els ch, Forall P ch -> P (Node b els ch)) -> forall t, P t.
@@ -450,4 +452,346 @@ Proof.
   induction t as [b els ch IH] using tree_ind'. cbn [traverse ray_hits].
   destruct (slab b ry r); [|reflexivity]. rewrite trav_els_id. f_equal.
   apply flat_map_ext_in. intros c Hc. rewrite Forall_forall in IH. apply IH, Hc.
+Qed.
+
+(* ---------- ClosestPoint ---------- *)
+Section ClosestProofs.
+  Variable P : Type.
+  Variable ekey : nat -> Z.
+  Variable cpt : nat -> P.
+  Variable kscale : Z.
+  Variable q : pt.
+  Hypothesis kpos : 0 <= kscale.
+
+  Local Notation ckey := (ckey kscale q).
+  Local Notation item := (item P).
+  Local Notation ikey := (ikey P).
+  Local Notation insert := (insert P).
+  Local Notation push_cells := (push_cells P kscale q).
+  Local Notation push_elems := (push_elems P ekey cpt).
+  Local Notation cloop := (cloop P ekey cpt kscale q).
+  Local Notation closest := (closest P ekey cpt kscale q).
+
+  (* the modelling hypothesis on the elements: an element is at least as far away as its box
+     (true whenever Element.ClosestPoint returns a point of the element's box: boxdist2_le_in) *)
+  Definition elem_ok (t : tree) : Prop :=
+    forall e, In e (tree_elems t) -> ckey (e_box e) <= ekey (e_idx e).
+
+  Definition item_ok (it : item) : Prop :=
+    match it with
+    | ICell k c => k = ckey (tbox c) /\ inv c /\ elem_ok c
+    | IElem k i p => k = ekey i /\ p = cpt i
+    end.
+  Definition item_ids (it : item) : list nat :=
+    match it with ICell _ c => map e_idx (tree_elems c) | IElem _ i _ => [i] end.
+  Definition wl_ids (wl : list item) : list nat := flat_map item_ids wl.
+  Definition R (a b : item) : Prop := ikey a <= ikey b.
+
+  Lemma ckey_mono a b : box_sub a b -> wf_box a -> ckey b <= ckey a.
+  Proof.
+    intros S W. unfold Octree.ckey. apply Z.mul_le_mono_nonneg_r; [exact kpos|].
+    apply boxdist2_mono; assumption.
+  Qed.
+
+  (* the key of a work item is a lower bound for every element it stands for *)
+  Lemma item_lower it : item_ok it -> forall j, In j (item_ids it) -> ikey it <= ekey j.
+  Proof.
+    destruct it as [k c|k i p]; cbn.
+    - intros (-> & Hinv & Hok) j Hj. apply in_map_iff in Hj. destruct Hj as (e & <- & He).
+      destruct (inv_elems c Hinv e He) as [W S].
+      etransitivity; [apply (ckey_mono _ _ S W) | apply Hok, He].
+    - intros (-> & _) j [<-|[]]. lia.
+  Qed.
+
+  Lemma insert_in x it wl : In x (insert it wl) <-> x = it \/ In x wl.
+  Proof.
+    induction wl as [|y wl IH]; cbn; [intuition congruence|].
+    destruct (ikey it <? ikey y); cbn; [intuition congruence|]. rewrite IH. intuition congruence.
+  Qed.
+
+  Lemma insert_sorted it wl : StronglySorted R wl -> StronglySorted R (insert it wl).
+  Proof.
+    induction 1 as [|y wl Hs IH Hf]; cbn; [repeat constructor|].
+    destruct (ikey it <? ikey y) eqn:E.
+    - apply Z.ltb_lt in E. constructor; [constructor; assumption|].
+      constructor; [unfold R; lia|]. eapply Forall_impl; [|exact Hf]. unfold R. intros; lia.
+    - apply Z.ltb_ge in E. constructor; [exact IH|].
+      apply Forall_forall. intros x Hx. apply insert_in in Hx. destruct Hx as [->|Hx]; [exact E|].
+      rewrite Forall_forall in Hf. apply Hf, Hx.
+  Qed.
+
+  Definition push (its wl : list item) : list item := fold_left (fun w it => insert it w) its wl.
+  Lemma push_cells_eq ch wl : push_cells ch wl = push (map (fun c => ICell (ckey (tbox c)) c) ch) wl.
+  Proof. revert wl. induction ch as [|c ch IH]; intros wl; cbn; [reflexivity|]. apply IH. Qed.
+  Lemma push_elems_eq els wl :
+    push_elems els wl = push (map (fun e => IElem (ekey (e_idx e)) (e_idx e) (cpt (e_idx e))) els) wl.
+  Proof. revert wl. induction els as [|c ch IH]; intros wl; cbn; [reflexivity|]. apply IH. Qed.
+
+  Lemma push_in x its : forall wl, In x (push its wl) <-> In x its \/ In x wl.
+  Proof.
+    induction its as [|it its IH]; intros wl; cbn; [tauto|].
+    rewrite IH, insert_in. intuition congruence.
+  Qed.
+  Lemma push_sorted its : forall wl, StronglySorted R wl -> StronglySorted R (push its wl).
+  Proof. induction its as [|it its IH]; intros wl H; cbn; [exact H|]. apply IH, insert_sorted, H. Qed.
+
+  (* expanding a cell keeps the set of elements the work list stands for *)
+  Lemma step_in (x : item) els ch rest :
+    In x (push_elems els (push_cells ch rest)) <->
+    (exists e, In e els /\ x = IElem (ekey (e_idx e)) (e_idx e) (cpt (e_idx e))) \/
+    (exists c, In c ch /\ x = ICell (ckey (tbox c)) c) \/ In x rest.
+  Proof.
+    rewrite push_elems_eq, push_cells_eq, !push_in, !in_map_iff.
+    split; intros [H|[H|H]]; auto.
+    - destruct H as (e & <- & He). left. eauto.
+    - destruct H as (c & <- & Hc). right; left. eauto.
+    - destruct H as (e & He & ->). left. eauto.
+    - destruct H as (c & Hc & ->). right; left. eauto.
+  Qed.
+
+  Lemma step_ids b els ch rest j :
+    In j (wl_ids (push_elems els (push_cells ch rest))) <->
+    In j (map e_idx (tree_elems (Node b els ch))) \/ In j (wl_ids rest).
+  Proof.
+    unfold wl_ids. rewrite !in_flat_map. cbn [tree_elems]. rewrite map_app, in_app_iff, !in_map_iff.
+    split.
+    - intros (x & Hx & Hj). apply step_in in Hx. destruct Hx as [(e & He & ->)|[(c & Hc & ->)|Hx]].
+      + destruct Hj as [<-|[]]. left; left. eauto.
+      + cbn in Hj. apply in_map_iff in Hj. destruct Hj as (e & <- & He). left; right.
+        exists e. split; [reflexivity|]. apply in_flat_map. eauto.
+      + right. eauto.
+    - intros [[(e & <- & He)|(e & <- & He)]|(x & Hx & Hj)].
+      + exists (IElem (ekey (e_idx e)) (e_idx e) (cpt (e_idx e))). split; [|left; reflexivity].
+        apply step_in. left. eauto.
+      + apply in_flat_map in He. destruct He as (c & Hc & He).
+        exists (ICell (ckey (tbox c)) c). split; [apply step_in; right; left; eauto|].
+        cbn. apply in_map, He.
+      + exists x. split; [apply step_in; auto | exact Hj].
+  Qed.
+
+  Lemma step_ok b els ch rest :
+    item_ok (ICell (ckey b) (Node b els ch)) -> Forall item_ok rest ->
+    Forall item_ok (push_elems els (push_cells ch rest)).
+  Proof.
+    intros (_ & Hinv & Hok) Hr. apply Forall_forall. intros x Hx. apply step_in in Hx.
+    destruct Hx as [(e & He & ->)|[(c & Hc & ->)|Hx]].
+    - split; reflexivity.
+    - rewrite inv_node in Hinv. destruct Hinv as [_ Hch]. rewrite Forall_forall in Hch.
+      split; [reflexivity|]. split; [apply Hch, Hc|].
+      intros e He. apply Hok. cbn [tree_elems]. apply in_app_iff. right. apply in_flat_map. eauto.
+    - rewrite Forall_forall in Hr. apply Hr, Hx.
+  Qed.
+
+  Lemma cloop_spec : forall fuel wl i k p,
+    StronglySorted R wl -> Forall item_ok wl -> cloop fuel wl = Some (i, k, p) ->
+    In i (wl_ids wl) /\ k = ekey i /\ p = cpt i /\ forall j, In j (wl_ids wl) -> k <= ekey j.
+  Proof.
+    induction fuel as [|fuel IH]; intros wl i k p Hs Hok Hc; [discriminate|].
+    destruct wl as [|[k0 [b els ch]|k0 i0 p0] rest]; [discriminate| |]; cbn [Octree.cloop] in Hc.
+    - inversion Hs as [|? ? Hs' Hf]; subst. inversion Hok as [|? ? Hi Hr]; subst.
+      assert (Hi' : item_ok (ICell (ckey b) (Node b els ch))).
+      { destruct Hi as (E & ?). split; [reflexivity|assumption]. }
+      apply IH in Hc; [| rewrite push_elems_eq, push_cells_eq; apply push_sorted, push_sorted, Hs' | apply (step_ok b); assumption].
+      + destruct Hc as (H1 & H2 & H3 & H4).
+        assert (U : forall j, In j (wl_ids (ICell k0 (Node b els ch) :: rest)) <->
+                              In j (map e_idx (tree_elems (Node b els ch))) \/ In j (wl_ids rest)).
+        { intros j. unfold wl_ids. cbn [flat_map item_ids]. apply in_app_iff. }
+        split; [|split; [exact H2|split; [exact H3|]]].
+        * apply U. apply (step_ids b) in H1. exact H1.
+        * intros j Hj. apply H4. apply (step_ids b). apply U in Hj. exact Hj.
+    - injection Hc as <- <- <-. inversion Hs as [|? ? Hs' Hf]; subst. inversion Hok as [|? ? Hi Hr]; subst.
+      destruct Hi as (-> & ->). split; [left; reflexivity|]. split; [reflexivity|]. split; [reflexivity|].
+      intros j [<-|Hj]; [lia|]. unfold wl_ids in Hj. apply in_flat_map in Hj. destruct Hj as (x & Hx & Hj).
+      rewrite Forall_forall in Hf, Hr. specialize (Hf x Hx). unfold R in Hf. cbn in Hf.
+      pose proof (item_lower x (Hr x Hx) j Hj). lia.
+  Qed.
+
+  (* OctTree.ClosestPoint: the returned index is an element of the tree, the returned point and
+     distance are that element's own, and no element is nearer *)
+  Theorem closest_spec t i k p :
+    inv t -> elem_ok t -> closest t = Some (i, k, p) ->
+    In i (map e_idx (tree_elems t)) /\ k = ekey i /\ p = cpt i /\
+    forall j, In j (map e_idx (tree_elems t)) -> k <= ekey j.
+  Proof.
+    intros Hi Ho Hc. unfold Octree.closest in Hc. apply cloop_spec in Hc.
+    - unfold wl_ids in Hc. cbn [flat_map item_ids] in Hc. rewrite app_nil_r in Hc. exact Hc.
+    - repeat constructor.
+    - constructor; [|constructor]. split; [reflexivity|split; assumption].
+  Qed.
+
+  (* the fuel (one unit per cell) is enough: a tree with an element always answers *)
+  Definition cells (it : item) : nat := match it with ICell _ c => tnodes c | IElem _ _ _ => O end.
+  Definition wl_cells (wl : list item) : nat := fold_right (fun it n => (cells it + n)%nat) O wl.
+
+  Lemma insert_cells it wl : wl_cells (insert it wl) = (cells it + wl_cells wl)%nat.
+  Proof.
+    unfold wl_cells. induction wl as [|y wl IH]; cbn [Octree.insert]; [reflexivity|].
+    destruct (ikey it <? ikey y); cbn [fold_right]; [reflexivity|]. rewrite IH. lia.
+  Qed.
+  Lemma push_measure its : forall wl, wl_cells (push its wl) = (wl_cells its + wl_cells wl)%nat.
+  Proof.
+    induction its as [|it its IH]; intros wl; [reflexivity|].
+    unfold push in *. cbn [fold_left]. rewrite IH, insert_cells. unfold wl_cells. cbn [fold_right]. lia.
+  Qed.
+
+  Lemma cloop_some : forall fuel wl, (wl_cells wl < fuel)%nat -> wl_ids wl <> [] -> cloop fuel wl <> None.
+  Proof.
+    induction fuel as [|fuel IH]; intros wl Hf Hne; [lia|].
+    destruct wl as [|[k0 [b els ch]|k0 i0 p0] rest]; [exfalso; apply Hne; reflexivity| |]; cbn [Octree.cloop].
+    - apply IH.
+      + rewrite push_elems_eq, push_cells_eq, !push_measure.
+        cbn [wl_cells fold_right cells tnodes] in Hf.
+        assert (E1 : wl_cells (map (fun e => IElem (ekey (e_idx e)) (e_idx e) (cpt (e_idx e))) els) = O).
+        { clear. unfold wl_cells. induction els as [|e els IHe]; cbn [map fold_right cells]; [reflexivity|]. rewrite IHe. reflexivity. }
+        assert (E2 : wl_cells (map (fun c => ICell (ckey (tbox c)) c) ch) =
+                     fold_right (fun c n => (tnodes c + n)%nat) O ch).
+        { clear. unfold wl_cells. induction ch as [|c ch IHc]; cbn [map fold_right cells]; [reflexivity|]. rewrite IHc. reflexivity. }
+        rewrite E1, E2. fold (wl_cells rest) in Hf. lia.
+      + destruct (wl_ids (ICell k0 (Node b els ch) :: rest)) as [|j l] eqn:E; [contradiction|].
+        assert (Hj : In j (wl_ids (ICell k0 (Node b els ch) :: rest))) by (rewrite E; left; reflexivity).
+        unfold wl_ids in Hj. cbn [flat_map item_ids] in Hj. apply in_app_iff in Hj.
+        apply (step_ids b) in Hj. intros E'. rewrite E' in Hj. destruct Hj.
+    - discriminate.
+  Qed.
+
+  Theorem closest_some t : tree_elems t <> [] -> closest t <> None.
+  Proof.
+    intros H. unfold Octree.closest. apply cloop_some.
+    - cbn. lia.
+    - unfold wl_ids. cbn [flat_map item_ids]. rewrite app_nil_r. intros E. apply map_eq_nil in E. contradiction.
+  Qed.
+End ClosestProofs.
+
+
+(* ---------- from element lists to trees: NewOctree / NewOctreeWithDepth ---------- *)
+Lemma Permutation_filter {A} (f : A -> bool) l l' : Permutation l l' -> Permutation (filter f l) (filter f l').
+Proof.
+  induction 1; cbn; try constructor.
+  - destruct (f x); [constructor|]; assumption.
+  - destruct (f x), (f y); try constructor; apply Permutation_refl.
+  - eapply Permutation_trans; eassumption.
+Qed.
+
+Lemma in_number_gen (d : box) boxes : forall s i b,
+  In (i, b) (combine (seq s (length boxes)) boxes) ->
+  (s <= i < s + length boxes)%nat /\ nth (i - s) boxes d = b.
+Proof.
+  induction boxes as [|b0 bs IH]; intros s i b H; [destruct H|].
+  cbn [length seq combine] in H. destruct H as [H|H].
+  - injection H as <- <-. rewrite Nat.sub_diag. cbn. split; [lia|reflexivity].
+  - apply IH in H. destruct H as [H1 H2]. cbn [length]. split; [lia|].
+    replace (i - s)%nat with (S (i - S s)) by lia. exact H2.
+Qed.
+
+Lemma in_number d boxes e : In e (number boxes) ->
+  (e_idx e < length boxes)%nat /\ e_box e = nth (e_idx e) boxes d.
+Proof.
+  destruct e as [i b]. intros H. apply (in_number_gen d) in H. cbn [e_idx e_box fst snd].
+  rewrite Nat.sub_0_r in H. destruct H as [H1 H2]. split; [lia | symmetry; exact H2].
+Qed.
+
+Lemma number_idx_gen (boxes : list box) : forall s, map fst (combine (seq s (length boxes)) boxes) = seq s (length boxes).
+Proof. induction boxes as [|b bs IH]; intros s; cbn; [reflexivity|]. f_equal. apply IH. Qed.
+
+Lemma scan_number_gen (f : box -> bool) d boxes : forall s,
+  map fst (filter (fun e => f (snd e)) (combine (seq s (length boxes)) boxes)) =
+  filter (fun i => f (nth (i - s) boxes d)) (seq s (length boxes)).
+Proof.
+  induction boxes as [|b bs IH]; intros s; [reflexivity|].
+  cbn [length seq combine filter snd]. rewrite Nat.sub_diag. change (nth 0 (b :: bs) d) with b.
+  assert (E : filter (fun i => f (nth (i - s) (b :: bs) d)) (seq (S s) (length bs)) =
+              filter (fun i => f (nth (i - S s) bs d)) (seq (S s) (length bs))).
+  { apply filter_ext_in. intros i Hi. apply in_seq in Hi.
+    replace (i - s)%nat with (S (i - S s)) by lia. reflexivity. }
+  rewrite E. destruct (f b); cbn [map fst]; rewrite IH; reflexivity.
+Qed.
+
+(* the exhaustive scan: the indices of the boxes that pass the test *)
+Definition brute (f : box -> bool) (boxes : list box) : list nat :=
+  filter (fun i => f (nth i boxes zero_pt_box)) (seq 0 (length boxes)).
+
+Lemma scan_number f boxes : map e_idx (filter (fun e => f (e_box e)) (number boxes)) = brute f boxes.
+Proof.
+  unfold number, brute. etransitivity; [exact (scan_number_gen f zero_pt_box boxes 0)|].
+  apply filter_ext. intros i. rewrite Nat.sub_0_r. reflexivity.
+Qed.
+
+Lemma number_wf boxes : Forall wf_box boxes -> forall e, In e (number boxes) -> wf_box (e_box e).
+Proof.
+  intros H e He. destruct e as [i b]. apply in_combine_r in He. rewrite Forall_forall in H. apply H, He.
+Qed.
+
+Theorem new_octree_inv depth boxes t :
+  Forall wf_box boxes -> new_octree depth boxes = Some t ->
+  inv t /\ Permutation (tree_elems t) (number boxes).
+Proof. intros W B. unfold new_octree in B. eapply build_inv; [apply number_wf, W | exact B]. Qed.
+
+Theorem new_octree_none depth boxes : new_octree depth boxes = None <-> boxes = [].
+Proof.
+  split.
+  - intros H. apply build_none in H. destruct boxes; [reflexivity | discriminate].
+  - intros ->. unfold new_octree. destruct depth as [[|d]|]; reflexivity.
+Qed.
+
+Lemma scan_perm f t boxes : Permutation (tree_elems t) (number boxes) -> Permutation (scan f t) (brute f boxes).
+Proof. intros H. unfold scan. rewrite <- scan_number. apply Permutation_map, Permutation_filter, H. Qed.
+
+Theorem contains_eq_brute_thm depth boxes t p :
+  Forall wf_box boxes -> new_octree depth boxes = Some t ->
+  Permutation (containing t p) (brute (inb p) boxes).
+Proof.
+  intros W B. destruct (new_octree_inv _ _ _ W B) as [I Pm].
+  rewrite containing_eq_scan by exact I. apply scan_perm, Pm.
+Qed.
+
+Theorem within_eq_brute_thm depth boxes t p d :
+  Forall wf_box boxes -> new_octree depth boxes = Some t ->
+  Permutation (within t p d) (brute (fun b => negb (far b p d)) boxes).
+Proof.
+  intros W B. destruct (new_octree_inv _ _ _ W B) as [I Pm].
+  rewrite within_eq_scan by exact I. apply scan_perm, Pm.
+Qed.
+
+Theorem ray_eq_brute_thm depth boxes t ry r :
+  Forall wf_box boxes -> new_octree depth boxes = Some t ->
+  Permutation (ray_hits t ry r) (brute (fun b => slab b ry r) boxes) /\
+  traverse (fun _ r => r) t ry r = ray_hits t ry r.
+Proof.
+  intros W B. destruct (new_octree_inv _ _ _ W B) as [I Pm]. split; [|apply traverse_id_eq_ray_hits].
+  rewrite ray_hits_eq_scan by exact I. apply scan_perm, Pm.
+Qed.
+
+Lemma tree_ids depth boxes t j :
+  Forall wf_box boxes -> new_octree depth boxes = Some t ->
+  In j (map e_idx (tree_elems t)) <-> (j < length boxes)%nat.
+Proof.
+  intros W B. destruct (new_octree_inv _ _ _ W B) as [_ Pm].
+  assert (E : Permutation (map e_idx (tree_elems t)) (seq 0 (length boxes))).
+  { rewrite <- (number_idx_gen boxes 0). apply Permutation_map, Pm. }
+  split; intros H.
+  - eapply Permutation_in in H; [|exact E]. apply in_seq in H. lia.
+  - eapply Permutation_in; [apply Permutation_sym, E|]. apply in_seq. lia.
+Qed.
+
+(* ClosestPoint on the tree NewOctree builds, for elements whose own closest point is at least as
+   far away as their box *)
+Theorem closest_eq_brute_thm (P : Type) (ekey : nat -> Z) (cpt : nat -> P) kscale q depth boxes t :
+  0 <= kscale -> Forall wf_box boxes ->
+  (forall i, (i < length boxes)%nat -> boxdist2 (nth i boxes zero_pt_box) q * kscale <= ekey i) ->
+  new_octree depth boxes = Some t ->
+  (exists r, closest P ekey cpt kscale q t = Some r) /\
+  forall i k p, closest P ekey cpt kscale q t = Some (i, k, p) ->
+    (i < length boxes)%nat /\ k = ekey i /\ p = cpt i /\
+    forall j, (j < length boxes)%nat -> k <= ekey j.
+Proof.
+  intros K W H B. destruct (new_octree_inv _ _ _ W B) as [I Pm]. split.
+  - destruct (closest P ekey cpt kscale q t) as [r|] eqn:E; [eauto|]. exfalso.
+    revert E. apply closest_some. intros E. rewrite E in Pm. apply Permutation_nil in Pm.
+    assert (boxes = []) by (destruct boxes; [reflexivity|discriminate]). subst.
+    rewrite (proj2 (new_octree_none depth []) eq_refl) in B. discriminate.
+  - intros i k p C. apply (closest_spec P ekey cpt kscale q K) in C; [|exact I|].
+    + destruct C as (C1 & C2 & C3 & C4). split; [eapply tree_ids; eassumption|].
+      split; [exact C2|]. split; [exact C3|]. intros j Hj. apply C4. eapply tree_ids; eassumption.
+    + intros e He. eapply Permutation_in in He; [|exact Pm].
+      destruct (in_number zero_pt_box boxes e He) as [L Eb]. unfold ckey. rewrite Eb. apply H, L.
 Qed.
